@@ -386,10 +386,31 @@ def main(ctx):
     return rep
 
 
+
 def mixed_cases(ctx):
     groups = []
     for names in catalog.same_length_groups():
         items = [("real", dict(curve=nm, which=w)) for w in REAL_KINDS
                  for nm in names]
         groups.append(items)
+    # small curves over DIFFERENT primes, operands with the same Z, one
+    # process: nothing computed for one field may be reused for another
+    items = []
+    curves_ = []
+    for p in (11, 13, 17, 19, 23):
+        # a curve of odd order: no point with y == 0 (recorded finding D7)
+        for (pp, a, b) in catalog.all_curves_over(p)[p:]:
+            if (len(rc.all_points(pp, a, b)) + 1) % 2 == 1:
+                curves_.append((pp, a, b))
+                break
+    for z in (2, 3, 5):
+        for (p, a, b) in curves_:
+            pts = rc.all_points(p, a, b)
+            A, B = pts[0], pts[len(pts) // 2]
+            items.append(("unary", dict(p=p, a=a, b=b, A=A, ra=["J", z])))
+            items.append(("binary", dict(p=p, a=a, b=b, A=A, ra=["J", z],
+                                         B=B, rb=["J", z])))
+            items.append(("binary", dict(p=p, a=a, b=b, A=A, ra=["J", z],
+                                         B=A, rb=["J", p - z])))
+    groups.append(items)
     return groups
